@@ -230,6 +230,9 @@ func (c *FileCache) Stats() (int, int, int, int) {
 }
 
 func (c *FileCache) removeOldest() {
+	if c.ll == nil {
+		return
+	}
 	elem := c.ll.Back()
 	if elem != nil {
 		c.removeElement(elem)
